@@ -250,6 +250,10 @@ func (rc *refCtx) eval(en *env, e *Expr) (*Val, error) {
 }
 
 func (rc *refCtx) transform(en *env, e *Expr) (*Val, error) {
+	if e.A[0].K == "name" && e.A[0].Name == "." {
+		// the parser writes the name "." for a transform WITHOUT an argument; such a transform has no defined value
+		return nil, undefined("transform without an argument")
+	}
 	arg, err := rc.eval(en, e.A[0])
 	if err != nil {
 		return nil, err
@@ -337,6 +341,9 @@ func (rc *refCtx) bin(en *env, e *Expr) (*Val, error) {
 			return mk(out), nil
 		}
 		for _, x := range l.E {
+			if x.K != l.E[0].K {
+				return nil, undefined("flatten over a heterogeneous collection")
+			}
 			switch x.K {
 			case "l", "set":
 				for _, y := range x.E {
@@ -520,7 +527,7 @@ func refRun(p *Prog) (*Val, []KV, error) {
 		en = en.with(kv.Key, kv.V)
 	}
 	b := main.Body
-	if b.K == "tr" {
+	if b.K == "tr" && !(b.A[0].K == "name" && b.A[0].Name == ".") {
 		arg, err := rc.eval(en, b.A[0])
 		if err != nil {
 			return nil, nil, err
